@@ -147,6 +147,12 @@ def query(sp, name, args):
         return num(sp.get_molecular_weight())
     if name == "scd":
         return num(sp.get_SCD())
+    if name == "strof":
+        t = str(sp)
+        r = repr(sp)
+        if not (r.startswith("[0x") and r.endswith("]: " + t)):
+            return ("exc", "Inconsistent", "repr() is not '[address]: ' + str()")
+        return ("str", t.replace(" ", "_"))
     if name == "seq":
         s_ = sp.get_sequence()
         if not (sp.get_length() == len(sp) == len(s_)):
